@@ -33,5 +33,5 @@ PROPS_ALL = {
 }
 
 # Only properties whose whole pipeline is in place are claimed in MANIFEST.json.
-CLAIMED = []
+CLAIMED = ["C14"]
 PROPS = {k: v for k, v in PROPS_ALL.items() if k in CLAIMED}
